@@ -1852,6 +1852,8 @@ class TrajectoryStore:
                 )
             case (False, True, False):
                 # ThrustModeValues
+                if np.all(var[index] == var.get_fill_value()):
+                    return None
                 return ThrustModeValues(
                     {tm: var[index, ti] for ti, tm in enumerate(ThrustMode)}
                 )
